@@ -8,6 +8,7 @@ CONSTANTS
   KeySp = {"targetname", "TargetName"}
   Prefixes = {"", "a"}
   IterOps = {}
+  ScanKinds = {}
   CopyMaps = {"m1", "m2"}
   PClass = {}
   PNames = {}
